@@ -27,7 +27,7 @@ type c11Case struct {
 	Script  []uint32         `json:"script,omitempty"`
 }
 
-var c11Chars = []string{"a", "b", "Z", "0", "-", " ", "é", "ß", "λ", "正", "確", "💩", "ű", "¡", "—", "\n", "\r", "\t"}
+var c11Chars = []string{"a", "b", "Z", "0", "-", " ", "é", "ß", "λ", "正", "確", "💩", "ű", "¡", "—", "\n", "\r", "\t", "\u0301", "\u0e34", "\uFFFD", "%"}
 
 func genTokValue(t *rapid.T) string {
 	var n int
